@@ -3,10 +3,10 @@ import CpModel.Validators
   C16 (conditional part, round 2) — the request flow with the configuration dimensions the first
   model (`CpModel.Validators.respond`) left out:
 
-    * `response.stream` (config `response.stream: True`): `Response.finalize` takes the
-      `if self.stream:` branch FIRST — Content-Length is only kept when somebody set it, and the
-      "1xx / 204 / 205 / 304 have no body" branch is not reached, so whatever `response.body` holds
-      at that point is what the WSGI iterable delivers;
+    * `response.stream` (config `response.stream: True`): `Response.finalize` first empties 1xx / 204 /
+      205 / 304 responses (body flushed, Content-Length dropped — since b33ff58 also when streamed, F17d),
+      then, for a streamed response, keeps a Content-Length only when somebody set it and delivers
+      whatever `response.body` holds through the WSGI iterable;
     * handlers that validate themselves: a `gen` handler is a *script*, a list of steps executed in
       order, each of which may raise out of the handler:
         `body`         `cherrypy.response.body = <the entity>`   (bytes / list / generator / file)
@@ -84,8 +84,16 @@ def fullScript (r : ReqX) : List Step :=
 
 def initState (r : ReqX) : HState := ⟨r.base.handlerEtag, false, false⟩
 
-/-- finalize for a handler-generated body that nobody turned into 304 / 412 -/
+/-- finalize for a handler-generated body that nobody turned into 304 / 412 (as repaired by b33ff58, F17d:
+    the statuses without a message body are tested BEFORE `self.stream`) -/
 def plainRespX (r : ReqX) (status : Nat) (etag : Option Text) : Resp :=
+  if noBodyStatus status then ⟨status, none, none, etag, .empty⟩
+  else if r.stream then ⟨status, none, none, etag, .bytes r.base.content⟩
+  else plainResp r.base status etag
+
+/-- the same before b33ff58: `if self.stream:` came first, so a streamed response kept whatever body it
+    held, whatever the status (kept for the refutation `CpProofs.C16.unfixed_finalize_304_with_body`) -/
+def plainRespXUnfixed (r : ReqX) (status : Nat) (etag : Option Text) : Resp :=
   if r.stream then ⟨status, none, none, etag, .bytes r.base.content⟩
   else plainResp r.base status etag
 
